@@ -45,7 +45,8 @@ def fwd_case(draw, max_tasks=8, fixed=True, late_clock=True, balance=None, **kw)
                     t['start'] = iso(e - timedelta(days=draw(st.integers(0, 10))))
                 elif k == 1:    # started: fixed start at a midnight, end open
                     t['start'] = iso(day(P) + timedelta(days=draw(st.integers(-10, 10))))
-    return dict(dir='fwd', spec=spec, res=rs, P=iso(P), N=iso(N), balance=draw(st.booleans()) if balance is None else balance,
+    sd = nm == 'equal' and draw(st.booleans())
+    return dict(dir='fwd', spec=spec, res=rs, P=iso(P), N=iso(N), start_default=sd, balance=draw(st.booleans()) if balance is None else balance,
                 dflt=draw(st.sampled_from([0, 0, 4])), reuse=draw(st.integers(0, 2)) == 0)
 
 
@@ -73,9 +74,11 @@ class Out:
 
 
 def make_scheduler(case, resources):
+    env.set_clock(dt(case['N']))
     from pjplan import ForwardScheduler, BackwardScheduler
     if case['dir'] == 'fwd':
-        return ForwardScheduler(start=dt(case['P']), resources=resources, balance_resources=case['balance'],
+        # start_default: the scheduler is built without a start and takes the clock (P == N in such cases)
+        return ForwardScheduler(start=None if case.get('start_default') else dt(case['P']), resources=resources, balance_resources=case['balance'],
                                 default_estimate=case['dflt'])
     return BackwardScheduler(end=dt(case['P']), resources=resources, balance_resources=case['balance'],
                              default_estimate=case['dflt'])
